@@ -6,7 +6,7 @@ enters the deviation stage is that of the run without them plus trees of new mod
 -/
 namespace Goyang.Lemmas.DevExt
 open Goyang.Model
-open Goyang.Lemmas.Tree (envOf keyOrder tstate forest0 pending0 pstate0 preDev fixAll afterLoop leftoverPass allMods augOrder)
+open Goyang.Lemmas.Tree (envOf keyOrder tstate forest0 pending0 pstate0 preDev fixAll afterLoop afterRounds leftoverPass allMods augOrder)
 
 section
 variable {B X : Registry} {ds : List Mod} {dk : KeyMap} (h : DevExtCore B X ds dk)
@@ -226,6 +226,35 @@ theorem leftover_lift {G : List (Nat × Entry)} (hG : NewTrees ds G) {P : List (
     obtain ⟨s', p', k'⟩ := r
     exact ih (fun a ha => hleft a (List.mem_cons_of_mem _ ha)) s' (n + p') hs'
 
+/-- **The retry rounds of the two runs**: the same module list is left over and the states are related
+as before (the new trees, like all the others, go through `FixChoice` after every productive round). -/
+theorem rounds_lift {P : List (Nat × List Entry)} (hP : PNew ds P) (fuel n : Nat) (A : Array Nat)
+    (hA : ∀ a ∈ A.toList, ∃ m ∈ B.mods, m.seq = a) (sB : PState) (hs : PInv B sB)
+    {G : List (Nat × Entry)} (hG : NewTrees ds G) :
+    (leftoverRounds X fuel n A (lift G P sB)).1 = (leftoverRounds B fuel n A sB).1 ∧
+    (∀ a ∈ (leftoverRounds B fuel n A sB).1.toList, ∃ m ∈ B.mods, m.seq = a) ∧
+    PInv B (leftoverRounds B fuel n A sB).2 ∧
+    ∃ G', NewTrees ds G' ∧ (leftoverRounds X fuel n A (lift G P sB)).2 = lift G' P (leftoverRounds B fuel n A sB).2 := by
+  have key := Rounds.rounds_rel B X
+    (fun m₁ s₁ m₂ s₂ => m₂ = m₁ ∧ (∀ a ∈ m₁.toList, ∃ m ∈ B.mods, m.seq = a) ∧ PInv B s₁ ∧
+      ∃ G', NewTrees ds G' ∧ s₂ = lift G' P s₁)
+    (fun fuel m₁ s₁ m₂ s₂ hR => by
+      obtain ⟨rfl, hA1, hs1, G1, hG1, rfl⟩ := hR
+      obtain ⟨k1, k2⟩ := augmentLoop_keeps B B fuel m₂ s₁ hs1
+      rw [loop_same h hG1 hP fuel m₂ s₁ hA1 hs1]
+      exact ⟨rfl, fun a ha => hA1 a (k2 a ha), k1, G1, hG1, rfl⟩)
+    (fun fuel m₁ s₁ m₂ s₂ hR => by
+      obtain ⟨rfl, hA1, hs1, G1, hG1, rfl⟩ := hR
+      rw [Rounds.loopCount_eq_zero, Rounds.loopCount_eq_zero]
+      have hp := pass_ext h hG1 hP (m₂.size + 1) m₂ m₂ [] 0 0 s₁ (m₂.size + 1) (by simp)
+        (fun _ hn => by cases hn) hA1 hs1 (by omega) (by omega) (by simp)
+      rw [hp])
+    (fun m₁ s₁ m₂ s₂ hR => by
+      obtain ⟨rfl, hA1, hs1, G1, hG1, rfl⟩ := hR
+      exact ⟨rfl, hA1, hs1, _, newTrees_fix hG1, fixAll_lift G1 P s₁⟩)
+    fuel n A sB A (lift G P sB) ⟨rfl, hA, hs, G, hG, rfl⟩
+  exact ⟨key.1, key.2.1, key.2.2.1, key.2.2.2⟩
+
 /-- **The two runs agree before the deviation stage, whatever augments `B` has.** -/
 theorem preDev_ext_aug {plug : Plug} {opts : Opts} (hconv : ConvAgree B X opts plug) :
     ∃ G, NewTrees ds G ∧ (preDev X opts plug).forest = ext G (preDev B opts plug).forest := by
@@ -251,21 +280,36 @@ theorem preDev_ext_aug {plug : Plug} {opts : Opts} (hconv : ConvAgree B X opts p
     ((augOrder B).map (·.seq)).toArray (pstate0 B opts plug) hinv0
   have hleft : ∀ a ∈ (afterLoop B opts plug).1.toList, ∃ m ∈ B.mods, m.seq = a := fun a ha => hA a (k2 a ha)
   have hinvL : PInv B (fixAll (afterLoop B opts plug).2) := k1
-  -- the leftover pass
-  have hlo : leftoverPass X opts plug =
-      (lift (G.map fun (x : Nat × Entry) => (x.1, fixChoice x.2)) P (leftoverPass B opts plug).1, (leftoverPass B opts plug).2) := by
-    unfold leftoverPass
-    rw [hloop]
+  -- the retry rounds
+  have hfuel : (pending0 X opts plug).foldl (fun n p => n + p.2.length) 0 =
+      (pending0 B opts plug).foldl (fun n p => n + p.2.length) 0 := by
+    have e1 : pending0 X opts plug = (pstate0 X opts plug).pending := rfl
+    have e2 : pending0 B opts plug = (pstate0 B opts plug).pending := rfl
+    rw [e1, e2, h0, total_lift G hP]
+  obtain ⟨r1, r2, r3, G', hG', r4⟩ := rounds_lift h hP
+    ((pending0 B opts plug).foldl (fun n p => n + p.2.length) 0 + 2)
+    ((pending0 B opts plug).foldl (fun n p => n + p.2.length) 0 + 2)
+    (afterLoop B opts plug).1 hleft (fixAll (afterLoop B opts plug).2) hinvL (newTrees_fix hG)
+  have hrounds : afterRounds X opts plug = ((afterRounds B opts plug).1, lift G' P (afterRounds B opts plug).2) := by
+    unfold afterRounds
+    rw [hloop, hfuel]
     simp only
-    rw [fixAll_lift, ← Array.foldl_toList, ← Array.foldl_toList]
-    exact leftover_lift h (newTrees_fix hG) hP _ hleft _ 0 hinvL
+    rw [fixAll_lift]
+    exact Prod.ext r1 r4
+  -- the reporting sweep
+  have hlo : leftoverPass X opts plug = (lift G' P (leftoverPass B opts plug).1, (leftoverPass B opts plug).2) := by
+    unfold leftoverPass
+    rw [hrounds]
+    simp only
+    rw [← Array.foldl_toList, ← Array.foldl_toList]
+    exact leftover_lift h hG' hP _ r2 _ 0 r3
   unfold preDev
   rw [hlo]
   simp only
   split
   · rw [fixAll_lift]
-    exact ⟨_, newTrees_fix (newTrees_fix hG), rfl⟩
-  · exact ⟨_, newTrees_fix hG, rfl⟩
+    exact ⟨_, newTrees_fix hG', rfl⟩
+  · exact ⟨_, hG', rfl⟩
 
 end
 
